@@ -52,14 +52,17 @@ deriving DecidableEq, Repr
     pattern can only match inside the last line (and `res[1]` is only that line's prefix) -/
 def lastLine (s : Str) : Str := (s.reverse.takeWhile (· != '\n')).reverse
 
-def irregular (c : Cfg) (fixed : Bool) (s : Str) : Out :=
-  match find c (if fixed then s else lastLine s) with
+/-- `f2`: repaired first letter and `(?is)`; `f3`: a failed lookup falls through -/
+def irregular2 (c : Cfg) (f2 f3 : Bool) (s : Str) : Out :=
+  match find c (if f2 then s else lastLine s) with
   | none => .nomatch
   | some (pre, w) =>
     match c.table.lookup (w.map c.lower) with
-    | none => if fixed then .nomatch else .panic          -- `""[1:]`
+    | none => if f3 then .nomatch else .panic          -- `""[1:]`
     | some repl =>
-      let first := if fixed then w.take 1 else s.take 1
+      let first := if f2 then w.take 1 else s.take 1
       .ok (pre ++ first ++ repl.drop 1)
+
+def irregular (c : Cfg) (fixed : Bool) (s : Str) : Out := irregular2 c fixed fixed s
 
 end Gengo.Inflect
